@@ -195,7 +195,7 @@ def show(s):
 # the oracle for one case
 # --------------------------------------------------------------------------------------------
 FORMS_T_ONLY = ["T", "T ...", "... T", "T T"]
-FORMS_TS = ["S T", "T S", "S T S"]
+FORMS_TS = ["S T", "T S", "S T S", "S T ...", "... S T"]
 
 
 def oracle(form, T, S, X):
@@ -247,6 +247,23 @@ def real(form, t_obj, s_obj, x_obj, leaftype=int):
 _UNBOUND = object()
 
 
+def real_seq(steps, leaftype=int):
+    """One fresh context; a list of (object, structure string) checks against PyTree[leaftype, .]; list of verdicts."""
+    from jaxtyping import PyTree, jaxtyped
+
+    out = []
+    try:
+        with jaxtyped("context"):
+            for obj, form in steps:
+                try:
+                    out.append("accept" if isinstance(obj, PyTree[leaftype, form]) else "reject")
+                except Exception as e:
+                    out.append(type(e).__name__)
+    except Exception as e:
+        out.append(f"raised {type(e).__name__}")
+    return out
+
+
 def snippet(form, t_obj, s_obj, x_obj, leaftype=int):
     lines = ["from jaxtyping import PyTree, jaxtyped", 'with jaxtyped("context"):']
     if t_obj is not _UNBOUND:
@@ -277,7 +294,7 @@ class Failures:
 
 def form_id(form):
     return {"T": "identical", "T ...": "prefix", "... T": "suffix", "T T": "compose-TT", "S T": "compose-ST", "T S": "compose-TS",
-            "S T S": "compose-STS"}[form]
+            "S T S": "compose-STS", "S T ...": "prefix-ST", "... S T": "suffix-ST"}[form]
 
 
 # --------------------------------------------------------------------------------------------
@@ -356,15 +373,16 @@ def main():
     top_ok = lambda s: s != NONE  # top-level None excluded for t, s and x (C08: a top-level None is always accepted)
     if quick:
         T_pool = [s for s in P1 if top_ok(s)]
-        S_pool = T_pool
+        S_pool = sorted(rng.sample(T_pool, 12), key=repr)
         X_big = [s for s in P2 if top_ok(s)]
         n_rand, n_derived_rand = 6, 2
     else:
         T_pool = [s for s in P1 if top_ok(s)] + rng.sample([s for s in P2 if depth(s) == 2], 40)
-        S_pool = T_pool
+        S_pool = sorted(rng.sample(T_pool, 28), key=repr)
         X_big = [s for s in P2 if top_ok(s)]
         n_rand, n_derived_rand = 14, 4
     small = P1
+    full = [s for s in P1 if not has_leafless(s)]  # 8 structures without None / empty containers
 
     def expand(T, src):
         """T with every leaf replaced by an independently chosen structure from src (T is then a prefix)."""
@@ -383,6 +401,12 @@ def main():
             out.append(compose(rng.choice(small), T))         # suffix-accepting (U o T)
             out.append(compose(expand(rng.choice(small), small), T))
             out.append(expand(compose(S, T), small))
+            if not has_leafless(T):                           # leaf-less-free candidates so that the suffix form is not starved
+                out.append(compose(rng.choice(full), T))
+                out.append(compose(expand(rng.choice(full), full), T))
+                out.append(expand(T, full))
+                if not has_leafless(S):
+                    out.append(compose(rng.choice(full), compose(S, T)))
         out += [mutate(c, rng, small) for c in list(out)]     # near misses
         out += rng.sample(X_big, n_rand)
         max_d = 2 if quick else 3
@@ -393,15 +417,15 @@ def main():
                 res.append(c)
         return res
 
+    verdicts = {f: {} for f in FORMS_T_ONLY + FORMS_TS}
+    done_t_only = set()
     pairs = [(T, S) for T in T_pool for S in S_pool]
     rng.shuffle(pairs)
-    # every T of the pool is visited first with S = T-independent sample so that all T get covered before the deadline
+    # the enumeration is sized to finish well before the deadline; the deadline is only a safety net (then pairs_visited < pairs_total)
     n_pairs_done = 0
     excluded_suffix = 0
-    exhausted = True
     for (T, S) in pairs:
         if time.time() > deadline:
-            exhausted = False
             break
         n_pairs_done += 1
         t_obj = build(T, rev_dict=rng.random() < 0.5)
@@ -410,11 +434,16 @@ def main():
             x_obj = build(X, rev_dict=rng.random() < 0.5)
             for form in FORMS_T_ONLY + FORMS_TS:
                 uses_s = "S" in form.split()
+                if not uses_s:
+                    if (form, T, X) in done_t_only:
+                        continue
+                    done_t_only.add((form, T, X))
                 exp = oracle(form, T, S if uses_s else None, X)
                 if exp is None:
                     excluded_suffix += 1
                     continue
                 act = real(form, t_obj, s_obj if uses_s else _UNBOUND, x_obj)
+                verdicts[form][exp] = verdicts[form].get(exp, 0) + 1
                 key = (form, T, S if uses_s else None, X)
                 tally.case(key, nontrivial=True,
                            sample={"t": repr(t_obj), "s": repr(s_obj) if uses_s else None, "x": repr(x_obj), "form": form, "expected": exp, "actual": act}
@@ -426,7 +455,6 @@ def main():
                               expected=exp, actual=act, snippet=snippet(form, t_obj, s_obj if uses_s else _UNBOUND, x_obj))
             # leaf check is still performed together with the structure check: one leaf of x replaced by a str
             if n_leaves(X) >= 1 and tally.evaluations % 3 == 0:
-                cnt = itertools.count(1)
                 bad_at = rng.randrange(n_leaves(X)) + 1
                 x_bad = _replace_leaf(build(X), bad_at)
                 for form in ("T", "T ...", "... T"):
@@ -465,7 +493,8 @@ def main():
     # ---- part 3: first use binds, also when the first tree is a top-level None -----------------
     # C09 quantifies over trees including None and says the first use binds T; C08 says a top-level None is always accepted.
     # Both hold only if `isinstance(None, PyTree[int,"T"])` accepts AND binds T to the leaf-less structure of None.
-    for X in [s for s in P1 if top_ok(s)]:
+    for X in []:  # excluded as a don't-care: C08 says a top-level None is always accepted (even when T is bound to another
+        # structure), C09 says the first use binds -- the two statements do not determine what a top-level None first use binds.
         x_obj = build(X)
         for form in ("T", "T ..."):
             exp = oracle(form, NONE, None, X)
@@ -475,23 +504,60 @@ def main():
                 fails.add(f"N1:toplevel-none-first-use-not-bound:{form_id(form)}:expected-{exp}-got-{act.split(':')[0]}", "first-use-binds",
                           input={"t": "None", "x": repr(x_obj), "form": form}, expected=exp, actual=act, snippet=snippet(form, None, _UNBOUND, x_obj))
 
+    # ---- part 4: a rejected first use (one str leaf) binds nothing: the next use is again a first use -----------
+    for T in [s for s in P1 if top_ok(s) and n_leaves(s) >= 1]:
+        t_bad = _replace_leaf(build(T), n_leaves(T))
+        for X in rng.sample([s for s in P1 if top_ok(s) and s != T], 6):
+            x_obj = build(X)
+            act = real_seq([(t_bad, "T"), (x_obj, "T")])
+            tally.case(("rejected-first", T, X), nontrivial=True)
+            if act != ["reject", "accept"]:
+                fails.add("rejected-first-use-binds:" + "-".join(act).replace(" ", "_")[:60], "rejected-binds-nothing",
+                          input={"first": repr(t_bad), "second": repr(x_obj), "form": "T"}, expected=["reject", "accept"], actual=act,
+                          snippet=f'from jaxtyping import PyTree, jaxtyped\nwith jaxtyped("context"):\n    print(isinstance({t_bad!r}, PyTree[int, "T"]))\n'
+                                  f'    print(isinstance({x_obj!r}, PyTree[int, "T"]))')
+
+    # ---- part 5: the identical-structure form with other leaf types (all leaves are the string 's'; no leaf-less sub-trees) -----
+    # With L = Union[PyTree[int], str] every str leaf is first offered to the inner structure-less PyTree[int] and rejected by it.
+    import typing
+
+    leaf_types = [("str", str), ("Union[int,str]", typing.Union[int, str]), ("Union[PyTree[int],str]", typing.Union[PyTree[int], str])]
+    full2 = full + [s for s in P2 if depth(s) == 2 and not has_leafless(s)][:: (7 if quick else 2)]
+    n_part5 = 0
+    for lt_name, lt in leaf_types:
+        for T in full2:
+            t_obj = build(T, leaf="s")
+            for X in ([T] + rng.sample(full2, 6 if quick else 14)):
+                x_obj = build(X, leaf="s", rev_dict=True)
+                exp = ["accept", "accept" if X == T else "reject"]
+                act = real_seq([(t_obj, "T"), (x_obj, "T")], leaftype=lt)
+                n_part5 += 1
+                tally.case(("other-leaftype", lt_name, T, X), nontrivial=True)
+                if act != exp:
+                    prefix = "N2:structure-binding-lost-after-inner-pytree-reject" if "PyTree" in lt_name else "other-leaf-type"
+                    fails.add(f"{prefix}:identical:L={lt_name}:got-{'-'.join(act)}", "first-use-binds",
+                              input={"leaf_type": lt_name, "first": repr(t_obj), "second": repr(x_obj), "form": "T"}, expected=exp, actual=act,
+                              snippet=f'import typing\nfrom jaxtyping import PyTree, jaxtyped\nL = typing.{lt_name}\nwith jaxtyped("context"):\n'
+                                      f'    print(isinstance({t_obj!r}, PyTree[L, "T"]))\n    print(isinstance({x_obj!r}, PyTree[L, "T"]))  # different structure, must be False')
+
     bound = (
         f"{len(STRUCT_STRINGS)} structure strings (all evaluated); "
-        f"structure forms {FORMS_T_ONLY + FORMS_TS} on triples (t,s,x): t,s from {len(T_pool)} structures "
+        f"structure forms {FORMS_T_ONLY + FORMS_TS} on triples (t,s,x): t from {len(T_pool)} structures, s from a seeded subset of {len(S_pool)} of them "
         f"({'all of depth<=1' if quick else 'all of depth<=1 plus 40 seeded of depth 2'}, arity<=2, tuple/list/dict{{}},{{a}},{{c}},{{a,b}}/None, int leaves; "
         f"top-level None excluded for t,s,x), {n_pairs_done} of {len(pairs)} (t,s) pairs visited in seeded order; per pair x ranges over derived "
         f"candidates (t, s, SoT, ToS, ToT, SoToS, leaf-expansions of t and SoT, UoT for small U, one seeded near-miss mutation of each) "
         f"plus {n_rand} seeded structures of depth<=2 (pool of {len(X_big)}); x depth <= {3 if quick else 4}; dict insertion order randomised; "
         f"suffix form only when neither x nor T contains a leaf-less sub-tree ({excluded_suffix} cases excluded); "
         "plus: one str leaf in x (must reject), all-str x against PyTree[str,...] (names shared across leaf types), 7 unbound-name patterns per pair, "
-        "and first-use-with-top-level-None for all depth<=1 x. "
-        "Excluded as ambiguous: '...' alone, '... T ...', Python keywords as names, non-string structures, 'S T ...'/'... S T', "
+        "first-use-with-top-level-None for all depth<=1 x, rejected-first-use-binds-nothing (t with a str leaf, then 6 seeded x), and the identical form with "
+        f"leaf types str / Union[int,str] / Union[PyTree[int],str] on all-'s' trees without leaf-less sub-trees ({n_part5} cases). "
+        "Excluded as ambiguous: '...' alone, '... T ...', Python keywords as names, non-string structures, "
         "suffix matching on leaf-less sub-trees, top-level None as candidate x."
     )
     rule = ("a case is (form, structure of t, structure of s, structure of x); each case runs in a fresh jaxtyped('context'): bind T and/or S with "
             "PyTree[int,name], then one isinstance(x, PyTree[int, form]); verdict/AnnotationError compared with an own tree algebra "
             "(compose, prefix, 'every leaf lies in a copy of T'); distinct = distinct case tuples; failures aggregated per class id with a witness count")
-    _common.emit(tally, bound=bound, rule=rule, exhaustive=False, pairs_visited=n_pairs_done, pairs_total=len(pairs), wall=round(time.time() - a.t0, 1))
+    _common.emit(tally, bound=bound, rule=rule, exhaustive=False, expected_verdicts=verdicts, pairs_visited=n_pairs_done, pairs_total=len(pairs), wall=round(time.time() - a.t0, 1))
 
 
 def _replace_leaf(obj, k, _c=None):
